@@ -329,6 +329,40 @@ theorem clip_iota (L pr pc : Nat) (n : Int) (x : List (List K)) (hx : ∀ r ∈ 
     have : L + pc - (n.toNat + pc) = L - n.toNat := by omega
     rw [this]
 
+/-! ## masks and modal axes -/
+
+/-- `FastSphericalHarmonics.modal_axes[0]` is the `ι`-image of the real row axis -/
+theorem fastMvals_eq_iota (M pr : Nat) : fastMvals M pr = iotaAxis 0 pr (realMvals M) := by
+  simp [fastMvals_eq, realMvals_eq, iotaAxis]
+
+/-- `modal_axes[1]` of the fast layout is the real column axis padded with zeros -/
+theorem lvals_eq_pad (L pc : Nat) : lvals L pc = lvals L 0 ++ List.replicate pc 0 := by
+  simp [lvals]
+
+/-- `FastSphericalHarmonics.mask` is the `ι`-image of `RealSphericalHarmonics.mask`: row 1 and the
+ padding are `False`, every other row is the real row -/
+theorem fastMask_eq_iota (M L pr pc : Nat) (hM : 1 ≤ M) :
+    fastMask M L pr pc = iotaWith false L pr pc (realMask M L) := by
+  have hF : fastMask M L pr pc = (List.zipIdx (fastMvals M pr)).map fun mi => fastRow M L pc mi.1 mi.2 := rfl
+  have hR : realMask M L = (realMvals M).map (realRow L) := rfl
+  rw [hF, hR, fastMvals_eq, realMvals_eq]
+  simp only [List.cons_append, List.zipIdx_cons, List.map_cons, iotaWith, Nat.zero_add]
+  rw [fastRow_inside M L pc 0 0 (by omega) (by omega), fastRow_outside M L pc 0 1 (Or.inl rfl)]
+  congr 2
+  rw [List.zipIdx_append, List.map_append]
+  congr 1
+  · rw [zipIdx_map_congr _ _ _ (fun mi => realRow L mi.1 ++ List.replicate pc false)]
+    · rw [zipIdx_map_fst' _ _ (fun m => realRow L m ++ List.replicate pc false), List.map_map]; rfl
+    · intro m i hi1 hi2
+      rw [mTail_length] at hi2
+      exact fastRow_inside M L pc m i (by omega) (by omega)
+  · rw [zipIdx_map_congr _ _ _ (fun _ => List.replicate (L + pc) false)]
+    · simp
+    · intro m i hi1 _
+      rw [mTail_length] at hi1
+      exact fastRow_outside M L pc m i (Or.inr (by omega))
+
+
 end ring
 
 /-! ## eigenvalue operations (fields: the code divides by `radius²`) -/
@@ -441,5 +475,116 @@ theorem bases_shaped (cs sn : Nat → F) (s2p sp : F) (M N J L pn pr pj pc : Nat
    fastBasisOf_shaped _ P w M N J L pn pr pj pc (realBasis_length cs sn s2p sp M N).2 hP hPj hPl hw⟩
 
 end field
+
+/-! ## non-vacuity: a concrete pair of bases over ℚ
+
+`M = 2, L = 2, N = 3, J = 2`, paddings `(pn, pr, pj, pc) = (1, 2, 1, 1)` (so `H = 3`): the "cosine"
+and "sine" tables, the norms, the Legendre table and the weights are arbitrary rationals. -/
+section examples
+
+def csQ (k : Nat) : ℚ := [1, -1 / 2, -1 / 2].getD k 0
+def snQ (k : Nat) : ℚ := [0, 7 / 8, -7 / 8].getD k 0
+def PQ : List (List (List ℚ)) := [[[1 / 2, 1 / 3], [1 / 2, -1 / 3]], [[0, 3 / 5], [0, 3 / 4]]]
+def wQ : List ℚ := [1 / 2, 2 / 3]
+def brQ : Basis ℚ := realBasisOf (realBasis csQ snQ (5 / 2) (7 / 4) 2 3) PQ wQ
+def bfQ : Basis ℚ := fastBasisOf (realBasisZeroImag csQ snQ (5 / 2) (7 / 4) 2 3) PQ wQ 1 2 1 1 (2 * 2) 2 2
+def xQ : List (List ℚ) := [[1, 2], [3, 4], [5, 6]]
+def zQ : List (List ℚ) := [[1, -2], [3, 5], [-7, 10]]
+
+theorem PQ_rows : ∀ pm ∈ PQ, pm.length = 2 := by decide
+theorem PQ_cols : ∀ pm ∈ PQ, ∀ pj ∈ pm, pj.length = 2 := by decide
+
+/-- the structural hypothesis of T9.1 / T9.2 holds for the bases the code builds -/
+example : IotaRel brQ bfQ 2 2 2 :=
+  iotaRel_bases csQ snQ (5 / 2) (7 / 4) 2 3 2 2 1 2 1 1 (by omega) PQ wQ PQ_rows PQ_cols
+
+theorem shapedQ : Shaped brQ 3 (2 * 2 - 1) 2 2 ∧ Shaped bfQ (3 + 1) (2 + 2 / 2) (2 + 1) (2 + 1) :=
+  bases_shaped csQ snQ (5 / 2) (7 / 4) 2 3 2 2 1 2 1 1 PQ wQ rfl PQ_rows PQ_cols rfl
+
+/-- T9.1 instantiated: every hypothesis is discharged on the concrete object -/
+example : fastSynth bfQ (2 + 1) (iota 2 2 1 xQ) = padNodal 1 1 2 (realSynth brQ 2 xQ) :=
+  fastSynth_iota brQ bfQ 2 2 3 2 3 1 1 2 1 (by omega) (by omega) shapedQ.1 shapedQ.2
+    (iotaRel_bases csQ snQ (5 / 2) (7 / 4) 2 3 2 2 1 2 1 1 (by omega) PQ wQ PQ_rows PQ_cols)
+    xQ rfl (by decide)
+
+/-- … and the common value is not trivial -/
+example : realSynth brQ 2 xQ
+    = [[193 / 105, 173 / 105], [166 / 105, 557 / 420], [-212 / 105, -1333 / 420]] := by
+  simp [realSynth, invFourier, invLegendre, matMul, vecMat, vadd, scale, dotv, zerosN, brQ, realBasisOf,
+    realBasis, pairs, dup, PQ, xQ, csQ, snQ, List.range_succ]
+  norm_num
+
+/-- T9.1 (strong form) instantiated on an input with junk in row 1 and in the padding -/
+example : fastSynth bfQ (2 + 1) [[1, 2, 9], [7, 7, 7], [3, 4, 9], [5, 6, 9], [8, 8, 8], [9, 9, 9]]
+    = padNodal 1 1 2 (realSynth brQ 2 (unIota (2 * 2) 2
+        [[1, 2, 9], [7, 7, 7], [3, 4, 9], [5, 6, 9], [8, 8, 8], [9, 9, 9]])) :=
+  fastSynth_eq_real brQ bfQ 2 2 3 2 3 1 1 1 (by omega) (by omega) shapedQ.1 shapedQ.2
+    (iotaRel_bases csQ snQ (5 / 2) (7 / 4) 2 3 2 2 1 2 1 1 (by omega) PQ wQ PQ_rows PQ_cols)
+    _ rfl (by decide)
+
+example : unIota (2 * 2) 2 ([[1, 2, 9], [7, 7, 7], [3, 4, 9], [5, 6, 9], [8, 8, 8], [9, 9, 9]] : List (List ℚ))
+    = xQ := by decide
+
+/-- T9.2 instantiated -/
+example : fastAnalysis bfQ (2 * 3) (2 + 1) (2 + 1) (padNodal 1 1 2 zQ)
+    = iota 2 2 1 (realAnalysis brQ (2 * 2 - 1) 2 2 zQ) :=
+  fastAnalysis_pad brQ bfQ 2 2 3 2 3 1 1 2 1 (by omega) (by omega) shapedQ.1 shapedQ.2
+    (iotaRel_bases csQ snQ (5 / 2) (7 / 4) 2 3 2 2 1 2 1 1 (by omega) PQ wQ PQ_rows PQ_cols)
+    zQ (by decide) (by decide)
+
+example : realAnalysis brQ (2 * 2 - 1) 2 2 zQ = [[43 / 30, -61 / 45], [0, -11 / 5], [0, 1 / 4]] := by
+  simp [realAnalysis, fwdLegendre, fwdFourier, weight, transposeM, col, vecMat, vadd, scale, zerosN, brQ,
+    realBasisOf, realBasis, pairs, dup, PQ, wQ, zQ, csQ, snQ, List.range_succ]
+  norm_num
+
+/-- T9.3 instantiated -/
+example : zeroImagDerivative (iota 2 2 1 xQ) (2 + 1) 0 = iota 2 2 1 (realDerivative xQ 2) :=
+  zeroImagDerivative_iota 2 2 1 xQ (by decide) (by decide)
+
+example : realDerivative xQ 2 = [[0, 0], [5, 6], [-3, -4]] := by
+  simp [realDerivative, scale, zerosN, xQ, List.range_succ]
+
+/-- masks -/
+example : fastMask 2 3 2 1 = iotaWith false 3 2 1 (realMask 2 3) := fastMask_eq_iota 2 3 2 1 (by omega)
+
+example : realMask 2 3 = [[true, true, true], [false, true, true], [false, true, true]] := by decide
+
+example : fastMask 2 3 2 1 = [[true, true, true, false], [false, false, false, false],
+    [false, true, true, false], [false, true, true, false], [false, false, false, false],
+    [false, false, false, false]] := by decide
+
+/-- clipping and the eigenvalue operations -/
+example : clipWavenumbers 2 1 1 (iota 2 2 1 xQ) = (clipWavenumbers 2 0 1 xQ).map (iota 2 2 1) :=
+  clip_iota 2 2 1 1 xQ (by decide)
+
+example : clipWavenumbers 2 0 1 xQ = some [[1, 0], [3, 0], [5, 0]] := by
+  simp [clipWavenumbers, mulLast, clipMask, xQ, List.range_succ]
+
+example : laplacian (4 : ℚ) 2 1 (iota 2 2 1 xQ) = iota 2 2 1 (laplacian 4 2 0 xQ) :=
+  laplacian_iota 4 2 2 1 xQ (by decide)
+
+example : laplacian (4 : ℚ) 2 0 xQ = [[0, -1], [0, -2], [0, -3]] := by
+  simp [laplacian, mulLast, lapEig, lvals, xQ, List.range_succ]
+  norm_num
+
+example : inverseLaplacian (4 : ℚ) 2 1 (iota 2 2 1 xQ) = iota 2 2 1 (inverseLaplacian 4 2 0 xQ) :=
+  inverseLaplacian_iota 4 2 2 1 xQ (by decide)
+
+example : inverseLaplacian (4 : ℚ) 2 0 xQ = [[0, -4], [0, -8], [0, -12]] := by
+  simp [inverseLaplacian, mulLast, invEig, lapEig, lvals, xQ, List.range_succ]
+  norm_num
+
+/-- T9.4 / T9.5 instantiated: the stacked, reversed contraction with another precision hint -/
+example : fastSynthStacked bfQ 3 (iota 2 2 1 xQ) = fastSynth bfQ 3 (iota 2 2 1 xQ) :=
+  fastSynthStacked_eq bfQ 3 _ (by decide) shapedQ.2.pj
+
+example : fastSynthOpt ⟨true, true, "highest"⟩ bfQ 3 (iota 2 2 1 xQ) = fastSynth bfQ 3 (iota 2 2 1 xQ) :=
+  fastSynthOpt_eq _ bfQ 3 _ (by decide) shapedQ.2.pj
+
+example : fastAnalysisOpt ⟨true, true, "float32"⟩ bfQ (2 * 3) 3 3 (padNodal 1 1 2 zQ)
+    = fastAnalysis bfQ (2 * 3) 3 3 (padNodal 1 1 2 zQ) :=
+  fastAnalysisOpt_eq _ bfQ 3 3 3 _
+
+end examples
 
 end Dino.C09
